@@ -29,9 +29,11 @@ META = dict(
                "(C12_history_self_consistent, _independent, _reachable, _vs_fresh_reachable; C12_guarded_reset_refuted); load(save m) succeeds and "
                "preserves kind, features, dimension, sources, observation models, parameters for every well-formed model whose "
                "instance name is its kind; save/load/save is the identity on float32 declared-shape models; refutations for custom "
-               "instance names, default-constructed univariate models, scalar-noise shape and float64 parameters.",
-    level_note="Trusted: Coq kernel; json / repr float round trip and torch.tensor float32 cast (tested on sampled bit patterns, "
-               "not proved); torch tolist / view; the graph-shape conditions of C12_self_consistent_state on population variables and "
+               "instance names, default-constructed univariate models, scalar-noise shape and float64 parameters.  Float side: the "
+               "executable binary32 rounding r32 is idempotent on every rational (so save/load is a fixed point after one round with no "
+               "hypothesis on the cast), F32.round_bin is idempotent and monotone wherever defined and equals r32 on the normal range.",
+    level_note="Trusted: Coq kernel; json / repr float round trip and torch.tensor float32 cast being round-to-nearest-even "
+               "(tested on sampled bit patterns, exact ties and boundaries, also through the real load; not proved); torch tolist / view; the graph-shape conditions of C12_self_consistent_state on population variables and "
                "their priors (checked on the shipped DAGs at run time); "
                "DAG node names other than parameters, hyper-parameters and mixing_matrix in a hand-written `parameters` section are "
                "outside the model.",
@@ -41,6 +43,12 @@ META = dict(
 OBLIGATIONS = [
     "C12_self_consistent", "C12_tie_end_of_fit", "C12_roundtrip_partial", "C12_roundtrip_exact", "C12_idempotent_partial",
     "C12_idempotent_after_one",
+    # float side: r32 (the executable binary32 rounding tied to torch) is idempotent on every rational -> no cast hypothesis
+    "C12_r32_idempotent", "C12_idempotent_after_one_r32",
+    # Io/F32.v (round_bin / f32 / f64 / store32, the cast of the ingestion model of C14 / C20): idempotent, monotone, and the
+    # C14 age collision for every pair of ages of the interval
+    "C12_round_bin_idempotent", "C12_round_bin_monotone", "C12_store32_monotone", "C12_store32_defined",
+    "C12_store32_collision_interval", "C12_f32_is_r32", "C12_r32_monotone_normal",
     "C12_instance_name_refuted", "C12_instance_name_case_refuted", "C12_univariate_default_refuted",
     "C12_scalar_noise_shape_refuted", "C12_float64_refuted",
     # composition with C01 (coq/theories/Compose/): the store hypotheses discharged on the real State model
@@ -408,6 +416,45 @@ def mutations(run: Run, d: dict, key, directed: bool = False):
             mut(tag, f)
     return out
 
+
+def edge32_values() -> list:
+    """Exact ties and boundaries of binary32 (every value is an exact float64): half-way points with an even and an odd
+    significand below them, one float64 ulp on each side of a tie, the tie that renormalises (2^24 - 1/2 -> 2^24), 2^24 +- 1,
+    subnormal ties (2^-150 -> 0, 3*2^-150 -> 2^-148, 5*2^-150 -> 2^-148), the largest subnormal, the smallest normal, the tie
+    between them, powers of two over the whole range, the largest finite float32 (overflow is outside the model: never generated).
+    Used twice: r32 against torch.tensor directly, and as parameter values of dictionaries given to the REAL BaseModel.load."""
+    ties = [8388613.5, 8388614.5, 8388615.5, 16777215.5, 16777215.0, 16777216.0, 16777217.0, 16777218.0, 33554434.0, 33554438.0,
+            1.0 + 2 ** -24 - 2 ** -52, 1.0 + 2 ** -24 + 2 ** -52, 1.0 + 3 * 2 ** -24 - 2 ** -52, 1.0 + 3 * 2 ** -24 + 2 ** -52,
+            2.0 - 2 ** -25, 2.0 - 2 ** -24, 0.5 - 2 ** -27, 0.1 + 0.2, 2 / 3,
+            2.0 ** -150, 3 * 2.0 ** -150, 5 * 2.0 ** -150, 2.0 ** -150 * (1 + 2 ** -52), 2.0 ** -150 * (1 - 2 ** -53), 2.0 ** -151,
+            (2 ** 23 - 1) * 2.0 ** -149, 2.0 ** -126, (2 ** 24 - 1) * 2.0 ** -150, (2 ** 24 - 3) * 2.0 ** -150,
+            (2 ** 24 + 1) * 2.0 ** -150, (2 ** 23 + 1) * 2.0 ** -149, 2.0 ** -126 * (1 + 2 ** -24), 2.0 ** -126 * (1 + 3 * 2 ** -24),
+            (2 ** 24 - 1) * 2.0 ** 104, (2 ** 24 - 1) * 2.0 ** 104 * (1 + 2 ** -30), (2 ** 25 - 3) * 2.0 ** 103]
+    ties += [2.0 ** k for k in (-149, -148, -127, -125, -100, -24, -23, -1, 1, 10, 23, 25, 64, 100, 127)]
+    ties += [-t for t in ties[:16] + ties[19:29]]
+    return ties
+
+
+EDGE_PARAMS = ("tau_mean", "tau_std", "xi_std", "noise_std")   # parameters the mixing matrix does not depend on
+
+
+def edge_edit(d: dict, offset: int):
+    """The dictionary with every number of EDGE_PARAMS replaced by the next tie / boundary value (float64, NOT float32 values:
+    the real load has to round them); returns (dictionary, number of values replaced)."""
+    ties = edge32_values()
+    dd = copy.deepcopy(d)
+    n = [0]
+
+    def repl(x):
+        if isinstance(x, list):
+            return [repl(y) for y in x]
+        v = ties[(offset + n[0]) % len(ties)]
+        n[0] += 1
+        return v
+    for p in EDGE_PARAMS:
+        if p in dd.get("parameters", {}):
+            dd["parameters"][p] = repl(dd["parameters"][p])
+    return dd, n[0]
 
 # ----------------------------------------------------------------------------- comparisons on the real code
 
@@ -1160,6 +1207,7 @@ def _check(run: Run, thorough: bool, version: str, tmp: Path):
     import torch
     specs = config_specs(run, thorough)
     save_cases, save_meta, load_cases, load_meta = [], [], [], []
+    edge_off = [0]
     for idx, spec in enumerate(specs):
         try:
             m, df = build_model(spec)
@@ -1187,7 +1235,12 @@ def _check(run: Run, thorough: bool, version: str, tmp: Path):
             run.fail(f"save-load:to_dict-raises:{payload}", "to_dict raised on an initialised model", spec)
             continue
         # --- T2: load of the image and of hand edits
-        for tag, d in [("image", payload)] + mutations(run, payload, idx, directed=bool(spec.get("directed"))):
+        edge_d, n_edge = edge_edit(payload, edge_off[0])
+        edge_off[0] += n_edge
+        edits = [("image", payload)] + mutations(run, payload, idx, directed=bool(spec.get("directed")))
+        if n_edge:
+            edits.append(("param:float32-edge", edge_d))
+        for tag, d in edits:
             k2, r2 = real_load(d)
             if k2 == "err" and r2.startswith("unmodelled:"):
                 # JointModel configured with two observation models named "y" (construction-time ValueError of the DAG):
@@ -1203,6 +1256,15 @@ def _check(run: Run, thorough: bool, version: str, tmp: Path):
                     obs = coq_result("err", ERR[r2])
                 load_cases.append(f"({coq_dict(d)}, {obs})")
                 load_meta.append(dict(spec=spec, edit=tag, settings=d, observed=("ok" if k2 == "ok" else r2)))
+                if tag == "param:float32-edge":
+                    run.count("r32-edge", "through-BaseModel.load:" + ("ok" if k2 == "ok" else r2), n_edge)
+                    if k2 == "ok":
+                        # ... and what to_dict writes for the float32 ties / subnormals / 2^127 the reloaded model now holds
+                        k3, p3 = real_to_dict(r2)
+                        if k3 == "ok":
+                            save_cases.append(f"({coq_model(r2)}, {cs(version)}, (Ok {coq_dict(p3)}))")
+                            save_meta.append(dict(spec=spec, edit=tag, settings=d))
+                            run.count("r32-edge", "through-to_dict", n_edge)
                 run.count("load-outcome", "ok" if k2 == "ok" else r2)
                 run.count("edit", tag.split(":")[0])
                 run.case(("load", json.dumps(d, sort_keys=True)), nontrivial=(tag != "image" or nontriv))
@@ -1213,6 +1275,12 @@ def _check(run: Run, thorough: bool, version: str, tmp: Path):
         if spec.get("fit_iter"):
             oracle_self_consistent(run, m, spec)
             oracle_final_parameters(run, m, getattr(m, "_c12_sampling_state", None), spec)
+    n_edge_ok = run.distribution.get("r32-edge", {}).get("through-BaseModel.load:ok", 0)
+    run.extra["r32_edge_values_through_real_load"] = n_edge_ok
+    if specs and n_edge_ok < len(edge32_values()):
+        # fail closed: the binary32 ties / boundaries must reach the real load (each at least once over the configurations)
+        run.broken("tie:float32-edge-not-exercised", f"only {n_edge_ok} tie / boundary values went through BaseModel.load "
+                   f"(expected at least {len(edge32_values())})", kind="broken-correspondence")
     if save_meta:
         run.sample(dict(kind="save-case", spec=save_meta[0]))
     if load_meta:
@@ -1265,6 +1333,11 @@ def _check(run: Run, thorough: bool, version: str, tmp: Path):
     vals = [rng.uniform(-100, 100) for _ in range(150)] + [rng.uniform(-1, 1) * 10 ** rng.randrange(-44, 38) for _ in range(150)]
     vals += [0.1, 1 / 3, 16777217.0, 16777219.0, 1e-45, 1.4e-45, 7e-46, 2.1e-45, 1.1754943e-38, 5e-324, 0.0, 1.0 + 2 ** -24,
              1.0 + 2 ** -24 + 2 ** -50, 1.0 + 3 * 2 ** -24]
+    ties = edge32_values()
+    for t in ties:
+        assert math.isfinite(t) and math.isfinite(float(torch.tensor([t]).item())), t
+        run.count("r32-edge", "tie-or-boundary")
+    vals += ties
     for v in vals:
         f32 = float(torch.tensor([v]).item())     # torch.tensor(list of python floats) -> float32
         r_cases.append(f"({cq(v)}, {cq(f32)})")
@@ -1276,6 +1349,12 @@ def _check(run: Run, thorough: bool, version: str, tmp: Path):
     for i in bad or []:
         run.fail("tie:float32-rounding", "r32 (model of torch.tensor's float32 cast) differs from torch", dict(value=vals[i // 2], fixed_point_case=bool(i % 2)),
                  kind="broken-correspondence")
+    # the other executable rounding (Io/F32.v: f32 / store32, about which C12_round_bin_* / C12_store32_* speak) on the same values
+    hdr_f = hdr + "From Leaspy Require Import Io.R32.\n"
+    bad = run.vm_bad_indices("f32", hdr_f, "Q * Q", r_cases, "f32_case_ok")
+    for i in bad or []:
+        run.fail("tie:float32-rounding-f32", "F32.f32 / F32.store32 (float32 store of the ingestion model) differ from torch or from r32",
+                 dict(value=vals[i // 2], fixed_point_case=bool(i % 2)), kind="broken-correspondence")
 
 
 def main(run: Run):
